@@ -14,7 +14,7 @@ Statement forms (tuples):
   ('expr', src)                                                     bare call of a helper
   ('assign', name, src)                                             local name = expr (single assignment)
   coroutines only:
-  ('await', cond) ('awaittrue',) ('while', cond|None, body) ('break',) ('continue',)
+  ('await', cond) ('awaittrue',) ('awaitfalse',) ('while', cond|None, body) ('break',) ('continue',)
   ('awaitsub', name, args_src, result_name|None)
 """
 import re
@@ -143,6 +143,13 @@ class Renderer:
                 self.tick(ind + 1)
             else:
                 self.emit(ind, f"await {s[1]}()")
+        elif k == 'awaitfalse':
+            # halts the coroutine for good (until a reset): nothing behind it ever executes
+            if ref:
+                self.emit(ind, "while True:")
+                self.tick(ind + 1)
+            else:
+                self.emit(ind, "await false")
         elif k == 'awaittrue':
             if ref:
                 if not first:
